@@ -92,6 +92,9 @@ theorem smboPropose_spec {cfg : SmboCfg} {sp : Space} {f : Pos → Bool} {s : Sm
   split at h
   · -- Lipschitz
     split at h
+    · obtain ⟨a, b, c⟩ := moveRandomLoop_spec h
+      exact ⟨a, ht.rnd p b, (ht.feas p true c).symm⟩
+    split at h
     · rename_i idxs rest0 htape
       cases hs : sampleCands s.sm.cands idxs with
       | error e => rw [hs] at h; simp at h
@@ -100,11 +103,9 @@ theorem smboPropose_spec {cfg : SmboCfg} {sp : Space} {f : Pos → Bool} {s : Sm
         simp only at h
         split at h
         · simp at h
-        · split at h
-          · simp at h
-          · obtain ⟨a, b⟩ := pickByAcq_spec h
-            refine ⟨?_, hc p (sampleCands_sub hs p b)⟩
-            rw [htape]; exact a.trans (List.suffix_cons _ _)
+        · obtain ⟨a, b⟩ := pickByAcq_spec h
+          refine ⟨?_, hc p (sampleCands_sub hs p b)⟩
+          rw [htape]; exact a.trans (List.suffix_cons _ _)
     · simp at h
     · simp at h
   · cases htt : trainTape cfg s with
